@@ -142,6 +142,8 @@ type c11Env struct {
 	stopSeen chan *c11StopSeen
 
 	circuits    []*c11Circuit
+	limMu       sync.Mutex
+	limited     map[peer.ID]bool // relay host holds a limited connection to the peer
 	lastRsvp    []int
 	relayClosed bool
 }
@@ -155,6 +157,21 @@ type c11StopSeen struct {
 }
 
 func (e *c11Env) cover(name string) { e.out.Cover(name) }
+
+func (e *c11Env) isLimited(p peer.ID) bool {
+	e.limMu.Lock()
+	defer e.limMu.Unlock()
+	return e.limited[p]
+}
+
+func (e *c11Env) setLimited(p int, on bool) {
+	e.limMu.Lock()
+	if e.limited == nil {
+		e.limited = map[peer.ID]bool{}
+	}
+	e.limited[e.ids[p]] = on
+	e.limMu.Unlock()
+}
 
 func (e *c11Env) nowMs() int64 { return time.Since(e.t0).Milliseconds() }
 
@@ -234,7 +251,7 @@ func (e *c11Env) setup() error {
 		return err
 	}
 	rh.Network().Notify(e.cm.Notifee())
-	wh := &c11Host{Host: rh, nw: &c11Net{Network: rh.Network(), rm: e.rm}, cm: e.cm, env: e}
+	wh := &c11Host{Host: rh, nw: &c11Net{Network: rh.Network(), rm: e.rm, env: e}, cm: e.cm, env: e}
 	e.met = &c11Metrics{}
 	rc := relay.Resources{
 		ReservationTTL: time.Duration(c.ttl) * time.Millisecond, MaxReservations: c.maxRsvp, MaxCircuits: c.maxCirc,
